@@ -112,6 +112,13 @@ fn explore(api: &Api, seed: u64, cx: &mut Cx) {
         let mut us: Vec<(String, Vec<u8>)> = (2u64..=12).map(|u| (format!("u={}", u), crate::groups::small_int(u, 32, false))).collect();
         us.push(("rfc7748-5.2-vector1-u".into(), hex::decode("e6db6867583030db3594c1a424b15f7c726624ec26b3353b10a903a6d0ab1c4c").unwrap()));
         us.push(("rfc7748-5.2-vector2-u".into(), hex::decode("e5210f12786811d3f4b7959d0538ae2c31dbe7106fc03c3efc4cd549c715a493").unwrap()));
+        // canonical values just below p = 2^255 - 19 in shape (top byte 0x7f, low byte >= 0xed) but not in value
+        for (i, lo) in [0xedu8, 0xee, 0xf3, 0xff].iter().enumerate() {
+            let mut u = vec![0x11u8 * (i as u8 + 1); 32];
+            u[0] = *lo;
+            u[31] = 0x7f;
+            us.push((format!("near-p-shape-{}", i), u));
+        }
         for i in 0..12 {
             let mut u = vec![0u8; 32];
             Tape::seeded(seed, &format!("c19/u/{}", i)).fill_bytes(&mut u);
@@ -135,6 +142,14 @@ fn explore(api: &Api, seed: u64, cx: &mut Cx) {
                 cx.edges += 1;
                 cx.path();
                 let want = sp.ke.dh(k, u);
+                if kn == &ks[0].0 {
+                    // a valid (not small-order, canonical or not) peer value must be accepted by the public-key decoder
+                    if u[31] & 0x80 == 0 {
+                        if let Err(e) = api.ke_pk_recode(u) {
+                            cx.violate("public-key/valid-value-refused", format!("the public-key decoder refuses the valid peer value {}: {:?}", un, e));
+                        }
+                    }
+                }
                 match api.ke_dh(k, u) {
                     Ok(got) if got == want => cx.outcome("x25519-matches-rfc7748"),
                     Ok(_) => cx.violate("dh/not-x25519", format!("Diffie-Hellman of key {} with peer value {} differs from X25519 (RFC 7748)", kn, un)),
